@@ -103,7 +103,8 @@ fn execute_split(seq: &[usize], split: Option<usize>, ctx: &WorkerCtx) -> ExecRe
                 "reg_send->later" => { nw.peer.send(&reg_send_to("later", mark.clone())); if later_registered { delivered = Some(("p1".into(), format!("msg:{}", mark))); } }
                 "exit->live" => { nw.peer.send(&pt(RefVal::Tuple(vec![RefVal::int(3), peer_pid(5), d1.clone(), RefVal::atom("boom")]), None)); delivered = Some(("p1".into(), format!("exit:{}:{}", peer_pid(5), RefVal::atom("boom")))); }
                 "monitor_exit->live" => {
-                    let r = RefVal::Ref { node: PEER_NAME.into(), creation: crate::world::PEER_CREATION, ids: vec![1, 2, 3] };
+                    // (1..5 id words, by position in the sequence: alias references have five)
+                    let r = RefVal::Ref { node: PEER_NAME.into(), creation: crate::world::PEER_CREATION, ids: [vec![1, 2, 3], vec![1, 2, 3, 4, 5], vec![9], vec![1, 2, 3, 4], vec![7, 8]][(n as usize - 1) % 5].clone() };
                     nw.peer.send(&pt(RefVal::Tuple(vec![RefVal::int(21), peer_pid(6), d1.clone(), r.clone(), RefVal::atom("gone")]), None));
                     delivered = Some(("p1".into(), format!("down:{}:{}:{}", peer_pid(6), r, RefVal::atom("gone"))));
                 }
